@@ -368,6 +368,8 @@ val gf_pole : 'a1 numops -> (int -> 'a1) -> (int -> 'a1) -> int -> int -> 'a1
 
 val gf_relevant : 'a1 numops -> 'a1 -> 'a1 -> bool
 
+val gf_chase_guarded : bool
+
 val gf_part_eval : 'a1 -> 'a1
 
 val gf_part_tau : 'a1 -> 'a1
@@ -405,6 +407,8 @@ val susc_zero_weight :
   'a1 numops -> 'a1 -> 'a1 -> (int -> 'a1) -> (int -> 'a1) -> int -> int ->
   'a1
 
+val susc_chase_guarded : bool
+
 val susc_part_eval : 'a1 numops -> 'a1 -> 'a1 -> 'a1 -> 'a1 -> 'a1
 
 val susc_part_tau : 'a1 numops -> 'a1 -> 'a1 -> 'a1
@@ -418,6 +422,8 @@ val susc_total_matsubara_mult : z -> z
 val gf_total_matsubara_mult : z -> z
 
 val matsubara_spacing : 'a1 numops -> 'a1 -> 'a1 -> 'a1 -> 'a1
+
+val chaseIndices_guarded : bool
 
 val all_some : 'a1 option list -> 'a1 list option
 
@@ -595,6 +601,10 @@ val tau_dropped_bound : 'a1 numops -> 'a1 -> 'a1 -> ('a1 * 'a1) list -> 'a1
 
 val tau_merge_bound : 'a1 numops -> 'a1 -> (('a1 * 'a1) * 'a1) list -> 'a1
 
+val susc_tau_safe :
+  'a1 numops -> 'a1 -> 'a1 list -> 'a1 list list -> 'a1 list list -> 'a1 ->
+  'a1
+
 type status =
 | Constructed
 | Prepared
@@ -719,6 +729,12 @@ val c_gf_term_eval : (Float64.t -> Float64.t) -> fc -> fc -> fc -> fc
 
 val c_susc_term_eval : (Float64.t -> Float64.t) -> fc -> fc -> fc -> fc
 
+val c_gf_chase_guarded : bool
+
+val c_susc_chase_guarded : bool
+
+val c_chaseIndices_guarded : bool
+
 val c_poly_matrix :
   (Float64.t -> Float64.t) -> int -> (monomial * fc) list -> fc mat
 
@@ -761,3 +777,7 @@ val c_tau_dropped_bound :
 
 val c_tau_merge_bound :
   (Float64.t -> Float64.t) -> fc -> ((fc * fc) * fc) list -> fc
+
+val c_susc_tau_safe :
+  (Float64.t -> Float64.t) -> fc -> fc list -> fc list list -> fc list list
+  -> fc -> fc
